@@ -277,6 +277,7 @@ class Close(DQSpec):
         for nm, f in self.W.inv(self.st(ex)):
             ex.assume(f)
         self.wrote = False
+        self.wrote_before_notify = False
         return {"self": self.me}
 
     def on_field(self, ex, obj, field, write):
@@ -288,6 +289,8 @@ class Close(DQSpec):
 
     def signalling(self, ex, where):
         # P may have been made true by the unlocked store just before: this section must notify (ghost closer_pending)
+        if self.notified:
+            self.wrote_before_notify = self.wrote    # a waiter woken by this notify re-checks P: the flag must already be set
         if self.wrote:
             ex.oblige(f"{where}[signalling: close() notifies under the lock after setting the flag]", self.notified, kind="signalling")
         else:
@@ -296,7 +299,7 @@ class Close(DQSpec):
     def post(self, ex, result):
         c = ex.heap[(self.me.id, "_closed")]
         ex.oblige("post[closed flag set]", True if c is True else (c.t if isinstance(c, VBool) else False))
-        ex.oblige("post[flag set before the notify section]", bool(self.wrote))
+        ex.oblige("post[flag set before the notify section: a consumer woken by the notify finds the queue closed]", bool(self.wrote_before_notify))
         ex.oblige("post[lock released]", LOCK not in ex.held)
 
 
